@@ -3074,6 +3074,10 @@ static Token *attribute_list(Token *tok, Type *ty) {
         int64_t align = const_expr(&tok, tok);
         if (align > INT32_MAX)
           error_tok(start, "requested alignment is out of range");
+        // Like gcc, reject an alignment that is not a power of two: it
+        // would reach the assembler as an invalid .align operand.
+        if (align > 0 && (align & (align - 1)))
+          error_tok(start, "requested alignment is not a positive power of 2");
         // Like gcc, ignore a request that is not a positive alignment;
         // an alignment of 0 would later be used as a divisor.
         if (align > 0)
